@@ -6,6 +6,7 @@ package main
 
 import (
 	"go/ast"
+	"strings"
 	"go/token"
 	"go/types"
 )
@@ -251,4 +252,42 @@ func (m *Model) treeByNamed(n *types.Named) *TreeKind {
 // isTreeRecv: the variable is (a pointer to) a tree.
 func (m *Model) isTreeRecv(v *types.Var) bool {
 	return v != nil && m.treeByNamed(namedOf(v.Type())) != nil
+}
+
+
+// unitByBase finds the function called name, or the only method called name (a helper may have
+// been turned into a method of the reference type).
+func (m *Model) unitByBase(name string) *FuncUnit {
+	if u := m.ByName[name]; u != nil {
+		return u
+	}
+	var found *FuncUnit
+	for _, u := range m.Units {
+		if u.Lit == nil && strings.HasSuffix(u.Name, "."+name) {
+			if found != nil {
+				return nil
+			}
+			found = u
+		}
+	}
+	return found
+}
+
+// helperOperand: call is a call of the helper called base – as a function with one operand of the
+// reference type, or as a method on it – and operand is that reference expression.
+func (m *Model) helperOperand(call *ast.CallExpr, base string) (ast.Expr, bool) {
+	name := m.calleeName(call)
+	if name != base && !strings.HasSuffix(name, "."+base) {
+		return nil, false
+	}
+	if name == base {
+		if len(call.Args) == 1 {
+			return call.Args[0], true
+		}
+		return nil, false
+	}
+	if sel, ok := ast.Unparen(call.Fun).(*ast.SelectorExpr); ok && len(call.Args) == 0 {
+		return sel.X, true
+	}
+	return nil, false
 }
